@@ -212,6 +212,9 @@ _BUILTIN_TYPES = {"int": int, "float": float, "str": str, "bool": bool, "list": 
 class Interp:
     """Evaluator of the formula fragment over abstract objects."""
 
+    TOP_CALLS = 0          # top-level evaluations in this process (reported in evidence)
+    TOTAL_STEPS = 0
+
     def __init__(self, pm: ProgramModel, max_depth: int = 14,
                  native: Optional[dict[str, Callable[..., Any]]] = None) -> None:
         self.pm = pm
@@ -290,7 +293,9 @@ class Interp:
             return self.native[fi.qual](*args, **kwargs)
         self.called.add(fi.qual)
         if self.depth == 0:
+            Interp.TOTAL_STEPS += self.steps
             self.steps = 0
+            Interp.TOP_CALLS += 1
         self.depth += 1
         if self.depth > self.max_depth:
             self.depth -= 1
